@@ -347,6 +347,7 @@ func genC13(repo string) (string, error) {
 		}
 		sb.WriteString(s + "\n")
 	}
+	fmt.Fprintf(&sb, "def monthCalcSlotExpr : String := %q\n", lastReturn(FindFunc(ic, "month", "CalcSlot")))
 	sb.WriteString("-- calendar calls of the calculators: [time.Unix args] ++ [\"|\"] ++ [time.Date args] ++ [\"|\", return expression]\n")
 	for _, f := range []struct{ recv, name, lean string }{
 		{"day", "CalcSegmentTime", "dayCalcSegmentTimeShape"},
